@@ -263,6 +263,41 @@ impl El for u64 {
     }
 }
 
+/// A large plain element (256 bytes): per-call work must not depend on the element size.
+#[derive(Clone, PartialEq, Eq, Hash)]
+pub struct Big {
+    val: u64,
+    pad: [u64; 31],
+}
+impl std::fmt::Debug for Big {
+    fn fmt(&self, f: &mut std::fmt::Formatter<'_>) -> std::fmt::Result {
+        write!(f, "{}", self.val)
+    }
+}
+impl Default for Big {
+    fn default() -> Self {
+        Big::mk(0)
+    }
+}
+impl El for Big {
+    const TRACKED: bool = false;
+    const HEAP: bool = false;
+    const NAME: &'static str = "big-256B";
+    fn mk(val: u64) -> Self {
+        Big { val, pad: [val ^ 0x5555; 31] }
+    }
+    fn val(&self) -> u64 {
+        self.val
+    }
+    fn id(&self) -> u64 {
+        0
+    }
+    fn set_val(&mut self, v: u64) {
+        self.val = v;
+        self.pad = [v ^ 0x5555; 31];
+    }
+}
+
 const CANARY: u64 = 0xC0FF_EE00_C0FF_EE00;
 
 /// Tracked element. `Hash`/`Eq` use `val` only, so two objects with equal `val` and different
